@@ -55,12 +55,22 @@ func (C18) Gen(r *core.Rng, tier string, emit func(string)) {
 		}
 		emit(fmt.Sprintf("bucket %s absent 0 10 none", kind))
 		emit(fmt.Sprintf("bucket %s absent 5 1 cur", kind))
-		for _, mode := range []string{"rewrite", "rename", "samesize", "samesecond"} {
+		for _, mode := range []string{"rewrite", "rename", "samesize", "samesecond", "wholesecond"} {
 			emit("retag " + kind + " " + mode)
 		}
 	}
+	emit("filerace 64 4")
+	emit("filerace 5000 8")
 	emit("bucket httpdown 10 0 5 none")
 	emit("bucket httpdown 10 0 5 cur")
+	// the origin drops the connection of the read itself (a fresh connection: net/http does not retry); whatever
+	// the condition, the read is an ordinary error — in particular never the new object's bytes for an outdated tag
+	for _, c := range []string{"none", "cur", "old"} {
+		for _, n := range []int{3, 4096} {
+			emit(fmt.Sprintf("bucket httpflaky %d 0 %d %s", n, n, c))
+			emit(fmt.Sprintf("bucket httpflaky %d 1 1 %s", n, c))
+		}
+	}
 	nr := 300
 	if tier == "thorough" {
 		nr = 20000
@@ -93,7 +103,8 @@ func c18Open(kind string) (*c18Backend, error) {
 			}
 		}, cleanup: func() {}}, nil
 	case "file":
-		dir, _ := os.MkdirTemp(Scratch(), "c18")
+		// a directory name with characters that mean something in URLs: file:// must still open exactly it
+		dir, _ := os.MkdirTemp(Scratch(), "c18 #1%41?x=y ")
 		b, err := pmtiles.OpenBucket(ctx, "file://"+dir, "")
 		if err != nil {
 			return nil, err
@@ -114,7 +125,11 @@ func c18Open(kind string) (*c18Backend, error) {
 			default:
 				os.WriteFile(p, c, 0o644)
 			}
-			if mode == "samesecond" {
+			if mode == "wholesecond" {
+				// same size, modification times a whole number of seconds apart with equal sub-second parts
+				mt := time.Unix(1700000000+tick, 0)
+				os.Chtimes(p, mt, mt)
+			} else if mode == "samesecond" {
 				// both versions' mtimes inside one wall-clock second, differing only in the sub-second part
 				base := time.Unix(1700000000, 0)
 				os.Chtimes(p, base, base.Add(time.Duration(tick)*137*time.Millisecond))
@@ -123,14 +138,32 @@ func c18Open(kind string) (*c18Backend, error) {
 				os.Chtimes(p, mt, mt)
 			}
 		}, cleanup: func() { os.RemoveAll(dir) }}, nil
-	case "http", "httpdown":
+	case "http", "httpdown", "httpflaky":
 		var mu sync.Mutex
 		var content []byte
 		var version int
+		puts := 0
+		dropped := false
 		srv := httptest.NewServer(http.HandlerFunc(func(w http.ResponseWriter, r *http.Request) {
 			mu.Lock()
 			c, v := content, version
+			// flaky origin: once the final version is in place and its tag has been learnt (two requests after the
+			// second put), the next request's connection is closed without an answer — exactly once
+			drop := false
+			if kind == "httpflaky" && puts >= 2 && !dropped {
+				if r.Header.Get("If-Match") != "" || r.Header.Get("Range") != "bytes=0-0" {
+					drop, dropped = true, true
+				}
+			}
 			mu.Unlock()
+			w.Header().Set("Connection", "close")
+			if drop {
+				if hj, ok := w.(http.Hijacker); ok {
+					conn, _, _ := hj.Hijack()
+					conn.Close()
+					return
+				}
+			}
 			if c == nil {
 				http.NotFound(w, r)
 				return
@@ -150,9 +183,10 @@ func c18Open(kind string) (*c18Backend, error) {
 			mu.Lock()
 			content = c
 			version++
+			puts++
 			mu.Unlock()
 		}, cleanup: func() {
-			if kind == "http" {
+			if kind != "httpdown" {
 				srv.Close()
 			}
 		}}, nil
@@ -225,6 +259,80 @@ func (C18) RunGo(line string) string {
 			return fmt.Sprintf("wrong-bytes got %d bytes at %d", len(data), off)
 		}
 		return fmt.Sprintf("ok %d %d", off, int(off)+len(data))
+	case "filerace":
+		// readers against a stream of atomic rename-over replacements: a tag must always come with the bytes of
+		// the version it was computed from, and a read conditioned on a tag must never return another version's bytes
+		n, _ := strconv.Atoi(t[1])
+		readers, _ := strconv.Atoi(t[2])
+		dir, _ := os.MkdirTemp(Scratch(), "c18race")
+		defer os.RemoveAll(dir)
+		b, err := pmtiles.OpenBucket(ctx, "file://"+dir, "")
+		if err != nil {
+			return "open-failed"
+		}
+		p := filepath.Join(dir, "o.bin")
+		mk := func(i int) []byte { return bytes.Repeat([]byte{byte('A' + i%26)}, n) }
+		write := func(i int) {
+			tmp := filepath.Join(dir, "o.tmp")
+			os.WriteFile(tmp, mk(i), 0o644)
+			mt := time.Unix(1700000000+int64(i), int64(i)*1000)
+			os.Chtimes(tmp, mt, mt)
+			os.Rename(tmp, p)
+		}
+		write(0)
+		stop := make(chan struct{})
+		var wg sync.WaitGroup
+		var mu sync.Mutex
+		seen := map[string]byte{}
+		bad := ""
+		for k := 0; k < readers; k++ {
+			wg.Add(1)
+			go func() {
+				defer wg.Done()
+				last := ""
+				for {
+					select {
+					case <-stop:
+						return
+					default:
+					}
+					cond := ""
+					if last != "" && len(last)%2 == 0 {
+						cond = last
+					}
+					r, tag, _, err := b.NewRangeReaderEtag(ctx, "o.bin", 0, int64(n), cond)
+					if err != nil {
+						last = ""
+						continue
+					}
+					data, _ := io.ReadAll(r)
+					r.Close()
+					if len(data) == 0 {
+						continue
+					}
+					mu.Lock()
+					if c, ok := seen[tag]; ok && c != data[0] && bad == "" {
+						bad = fmt.Sprintf("tag %s came with bytes of version %c and of version %c", tag, c, data[0])
+					}
+					seen[tag] = data[0]
+					if cond != "" && tag != cond && bad == "" {
+						bad = "a read conditioned on tag " + cond + " succeeded with tag " + tag
+					}
+					mu.Unlock()
+					last = tag
+				}
+			}()
+		}
+		deadline := time.Now().Add(250 * time.Millisecond)
+		for i := 1; time.Now().Before(deadline); i++ {
+			write(i)
+		}
+		close(stop)
+		wg.Wait()
+		if bad != "" {
+			return "inconsistent: " + strings.ReplaceAll(bad, " ", "_")
+		}
+		return "consistent"
 	case "retag":
 		be, err := c18Open(t[1])
 		if err != nil {
@@ -280,12 +388,18 @@ func (C18) NonTrivial(line string) bool {
 }
 func (C18) Branch(line, goOut string) string {
 	t := strings.Fields(line)
+	if t[0] == "filerace" {
+		return "filerace " + goOut
+	}
 	return t[0] + " " + t[1] + " " + strings.SplitN(goOut, " ", 2)[0]
 }
 
 func (C18) Agree(line, goOut, modelOut string) bool {
-	if goOut == modelOut {
-		return true
+	// a dropped connection may be reported as an error or retried: the model offers both outcomes
+	for _, alt := range strings.Split(modelOut, " || ") {
+		if goOut == alt {
+			return true
+		}
 	}
 	t := strings.Fields(line)
 	// an empty object has no readable byte to learn the current tag from in the mem/http backends:
@@ -301,12 +415,26 @@ func (C18) Oracle(line, goOut string) string {
 		return "backend panicked: " + goOut
 	}
 	t := strings.Fields(line)
+	if t[0] == "filerace" {
+		if goOut != "consistent" {
+			return "local-directory backend under concurrent rename-over replacements: " + goOut
+		}
+		return ""
+	}
 	if t[0] == "retag" && goOut != "changed" {
 		return "replacement history (" + t[2] + ") on the " + t[1] + " backend: " + goOut
 	}
 	if t[0] == "bucket" {
 		if strings.HasPrefix(goOut, "wrong-bytes") {
 			return goOut
+		}
+		if t[1] == "httpflaky" {
+			if strings.HasPrefix(goOut, "ok") && t[5] == "old" {
+				return "a read conditioned on an outdated tag, retried after a dropped connection, returned the new object's bytes"
+			}
+			if goOut == "err" {
+				return "" // the failure is reported; a backend that retries (keeping the condition) is judged like a plain read below
+			}
 		}
 		if t[2] == "absent" || t[1] == "httpdown" {
 			if goOut != "err" {
